@@ -67,6 +67,7 @@ def run(ctx):
             if tag == "DoubleSend":
                 continue   # needs an I/O failure inside the closure: exercised by the request matrix (comment/uncreatable)
             scens.append(s)
+    scens += L.witness_scens(ctx, repeat=6 if q else 20)
     n = 40 if q else 400
     scens += L.sim_scens(ctx, "LifecycleSim.cfg", n)
     scens += L.sim_scens(ctx, "LifecycleSimErr.cfg", n // 2)
